@@ -62,6 +62,17 @@ pub const SPELLINGS: &[(&str, &str)] = &[
     ("day", "d"), ("days", "d"),
 ];
 
+/// Spanish spellings (what the words mean, by canonical symbol) for the shipped `units/spanish.toml` layer.
+pub const SPELLINGS_ES: &[(&str, &str)] = &[
+    ("litro", "l"), ("litros", "l"), ("mililitro", "ml"), ("mililitros", "ml"), ("taza", "c"), ("tazas", "c"), ("onza líquida", "fl oz"), ("onzas líquidas", "fl oz"),
+    ("galón", "gal"), ("galones", "gal"), ("pinta", "pt"), ("pintas", "pt"), ("cuarto", "qt"), ("cuartos", "qt"), ("metro", "m"), ("metros", "m"),
+    ("milimetro", "mm"), ("milimetros", "mm"), ("pie", "ft"), ("pies", "ft"), ("pulgada", "in"), ("pulgadas", "in"), ("gramo", "g"), ("gramos", "g"),
+    ("miligramo", "mg"), ("miligramos", "mg"), ("kilo", "kg"), ("kilos", "kg"), ("onza", "oz"), ("onzas", "oz"), ("libra", "lb"), ("libras", "lb"),
+    ("segundo", "s"), ("segundos", "s"), ("minuto", "min"), ("minutos", "min"), ("hora", "h"), ("horas", "h"), ("día", "d"), ("días", "d"),
+    // the English spellings stay what they were
+    ("milliliter", "ml"), ("ml", "ml"), ("cl", "cl"), ("centiliter", "cl"), ("mg", "mg"), ("kg", "kg"), ("kilogram", "kg"), ("cm", "cm"), ("mm", "mm"), ("dl", "dl"),
+];
+
 impl Def {
     pub fn to_base(&self, v: f64) -> f64 {
         (v + self.offset) * self.factor
